@@ -152,3 +152,294 @@ Proof. eexists. vm_compute. reflexivity. Qed.
 Example ex_env_inv :
   env_inv [[([120], ({| vr_local := true; vr_quant := QStar |}, false)); ([109], ({| vr_local := false; vr_quant := QOne |}, true))]].
 Proof. intros fr x v m [<-|[]] [H|[H|[]]]; inversion H; subst; [reflexivity|discriminate]. Qed.
+
+(* ================= LOCALITY: what an accepted file guarantees about EAGER positions =================
+   Vocabulary (Model/Locality.v, Spec/EagerPos.v)
+     lenv                      static environment: frames of (name, bit); bit true = immutable and independent of
+                               scoped variables (`let` of an eager_ok expression, `node`, loop variable); every `var`
+                               has bit false from its declaration on
+     eager_ok G env e          e has no scoped-variable read and every unscoped name in it is a global (G) or has bit
+                               true in env; comprehension lists inside e are eager_ok too
+     eager_in_file f' env e    e is an eager position of a stanza statement of f' at any nesting depth — subject of
+                               `scan`, condition of `if`, list of `for`, list of a comprehension inside any expression —
+                               and env is the static environment there (blocks scoped, statements in sequence)
+     file_eok f'               the executable form of "every eager position of every stanza is eager_ok"
+     lenv_of env               the checker's environment, projected to the `is_local` bits
+   Shorthand bodies are not stanza statements: they are not covered (known finding K4, `ex_shorthand_not_checked`). *)
+From TSG Require Import Model.Locality Spec.EagerPos Proofs.LocalCheck Proofs.LocalPos.
+
+Theorem checked_eager_positions_local : forall q f f',
+  check_file q f = CkOk f' ->
+  file_eok f' = true /\ forall env e, eager_in_file f' env e -> eager_ok (is_global f') env e = true.
+Proof.
+  intros q f f' H. pose proof (check_file_eok_with _ _ _ _ H) as Hok. split; [exact Hok|].
+  intros env e. apply file_eok_pos. exact Hok.
+Qed.
+
+(* the checker's verdict `is_local` IS eager_ok (globals are entered as local by File::check) *)
+Theorem checker_local_is_eager_ok : forall cx env e e' r,
+  globals_local cx -> check_expr cx env e = Ok (e', r) -> er_local r = eager_ok (cx_global cx) (lenv_of env) e'.
+Proof. intros cx env e e' r Hgl H. exact (check_expr_local cx (cx_global cx) (fun _ => eq_refl) Hgl _ _ _ _ H). Qed.
+
+(* statement by statement: every eager position is eager_ok, and the checker continues in the projected environment *)
+Theorem checked_stmt_eager_ok : forall cx env s s' env' u,
+  globals_local cx -> env_inv env -> check_stmt cx env s = Ok (s', env', u) ->
+  stmt_eok (cx_global cx) (lenv_of env) s' = true /\ lenv_of env' = stmt_env (cx_global cx) (lenv_of env) s'.
+Proof. intros cx env s s' env' u Hgl Hinv H. exact (check_stmt_eok cx (cx_global cx) (fun _ => eq_refl) Hgl _ _ _ _ _ H Hinv). Qed.
+
+(* the walker is sound for the enumeration of positions *)
+Theorem eok_covers_positions : forall G env0 s env e,
+  stmt_eok G env0 s = true -> eager_in_stmt G env0 s env e -> eager_ok G env e = true.
+Proof. intros G env0 s env e Hok Hpos. exact (proj1 (eok_pos G) _ _ _ _ Hpos Hok). Qed.
+(* ... and complete: the executable check `file_eok` says exactly "every enumerated position is eager_ok" *)
+Theorem file_eok_iff_positions : forall f,
+  file_eok f = true <-> forall env e, eager_in_file f env e -> eager_ok (is_global f) env e = true.
+Proof. exact file_eok_iff_pos. Qed.
+
+(* ---- Examples ---- *)
+(* (identifier)* @id {
+     for x in @id { let a = x  let b = [a, a]
+       for y in b { let c = (f y a)  scan c { "rx0" { print c } }  if c { } } } } *)
+Definition lx_l : loc := (0, 0).
+Definition lx_body : list stmt :=
+  [SFor [120] lx_l ex_cap
+     [SLet (VarU [97] lx_l) (EUnscoped [120] lx_l) lx_l;
+      SLet (VarU [98] lx_l) (EList [EUnscoped [97] lx_l; EUnscoped [97] lx_l]) lx_l;
+      SFor [121] lx_l (EUnscoped [98] lx_l)
+        [SLet (VarU [99] lx_l) (ECall [102] [EUnscoped [121] lx_l; EUnscoped [97] lx_l]) lx_l;
+         SScan (EUnscoped [99] lx_l) [(0, [SPrint [EUnscoped [99] lx_l] lx_l], lx_l)] (7, 7);
+         SIf [([CBool (EUnscoped [99] lx_l) lx_l], [], lx_l)] lx_l] lx_l] lx_l].
+Example lx_accepted : exists f', check_file (ex_tables [ex_id; FULL_MATCH]) (ex_file lx_body []) = CkOk f' /\ file_eok f' = true.
+Proof. eexists. split; vm_compute; reflexivity. Qed.
+(* the subject of the inner `scan` is an eager position, found two loops deep behind a `let` chain *)
+Example lx_position : forall f', check_file (ex_tables [ex_id; FULL_MATCH]) (ex_file lx_body []) = CkOk f' ->
+  let env := [[([121], true); ([99], true)]; [([120], true); ([97], true); ([98], true)]; []] in
+  eager_in_file f' env (EUnscoped [99] lx_l) /\ eager_ok (is_global f') env (EUnscoped [99] lx_l) = true.
+Proof.
+  intros f' H env. assert (Hpos : eager_in_file f' env (EUnscoped [99] lx_l)).
+  { vm_compute in H. inversion H; subst f'. eexists. split; [left; reflexivity|]. cbn [st_stmts].
+    apply EIB_here. apply EIS_for_body. apply EIB_later, EIB_later, EIB_here. apply EIS_for_body.
+    apply EIB_later, EIB_here. apply EIS_scan. }
+  split; [exact Hpos|]. exact (proj2 (checked_eager_positions_local _ _ _ H) _ _ Hpos).
+Qed.
+(* the motivating program: `var v = 1 … scan v … set v = x.y` in a loop body.  The checker walks the body once, the
+   interpreter runs it once per element: v must be non-local from its DECLARATION, and the scan is rejected with
+   ExpectedLocalValue (variant 5) at the scan statement *)
+Definition lx_bad : list stmt :=
+  [SFor [120] lx_l ex_cap
+     [SVar (VarU [118] lx_l) (EInt 1) lx_l;
+      SScan (EUnscoped [118] lx_l) [(0, [], lx_l)] (7, 7);
+      SSet (VarU [118] lx_l) (EScoped (EUnscoped [120] lx_l) [121] lx_l) lx_l] lx_l].
+Example lx_rejected : check_file (ex_tables [ex_id; FULL_MATCH]) (ex_file lx_bad []) = CkErr 5 (7, 7) [].
+Proof. vm_compute. reflexivity. Qed.
+Example lx_bad_not_eok : file_eok (ex_file lx_bad []) = false.
+Proof. vm_compute. reflexivity. Qed.
+(* without the scan the same body is accepted: the `set` of a scoped read into a `var` is fine *)
+Example lx_var_set_accepted : exists f',
+  check_file (ex_tables [ex_id; FULL_MATCH])
+    (ex_file [SFor [120] lx_l ex_cap
+                [SVar (VarU [118] lx_l) (EInt 1) lx_l;
+                 SSet (VarU [118] lx_l) (EScoped (EUnscoped [120] lx_l) [121] lx_l) lx_l] lx_l] []) = CkOk f'.
+Proof. eexists. vm_compute. reflexivity. Qed.
+
+(* ================= LOCALITY, semantic half: the lazy interpreter =================
+   Vocabulary (Spec/PureLv.v)
+     pure_lv st lv             the lazy value lv, read through the thunk store st, contains no scoped-variable read:
+                               no `LScoped`, and every store location in it is forced already or holds an unforced
+                               body that is again pure and mentions earlier locations only.  (The lazy interpreter
+                               binds EVERY unscoped variable to a store location, so "holds a value" means this.)
+     locals_ok st env l        the run-time frames l have the shape of the static environment env, and every
+                               variable whose bit is true is IMMUTABLE and bound to a pure lazy value
+     with_scoped sc ls         ls with the scoped store replaced by sc;  omap_scoped sc r: the outcome r with the
+                               scoped store of its final state replaced by sc
+     sext st st'               the store only grew, thunks only changed by being forced
+     quiet ls ls'              scoped store, deferred edge/attribute/print statements and debug table unchanged
+     cells_unforced cells      every scoped-variable cell is still SVUnforced (nothing has been forced)
+     lexec_matches             the execution phase of `execute_lazy` (all stanza/match blocks, before evaluation)
+   "m (with_scoped sc ls) p = omap_scoped sc (m ls p)" for EVERY sc says that m neither reads nor writes the scoped
+   store: whatever cells one puts there, the outcome — value, error, panic, fuel exhaustion, polls — is the same and
+   the cells come out as they went in. *)
+From TSG Require Import Spec.PureLv Proofs.LocalPure Proofs.LocalEval Proofs.LocalLeval Proofs.LocalHoare Proofs.LocalStmt Proofs.LocalRun.
+
+(* forcing a pure lazy value (LazyValue::evaluate / LazyStore::evaluate) *)
+Theorem pure_value_never_forces : forall t fl call fuel lv ls p,
+  pure_lv (l_store ls) lv ->
+  (forall sc, eval_lv t fl call fuel lv (with_scoped sc ls) p = omap_scoped sc (eval_lv t fl call fuel lv ls p)) /\
+  (forall v ls' p', eval_lv t fl call fuel lv ls p = Ok (v, ls', p') ->
+     sext (l_store ls) (l_store ls') /\ quiet ls ls' /\ l_locals ls' = l_locals ls).
+Proof. intros t fl call fuel lv ls p H. exact (eval_lv_pure t fl call fuel lv (l_locals ls) ls p (conj H eq_refl)). Qed.
+
+(* evaluate_eager (scan subject, if condition, for list, comprehension list) on an eager_ok expression, in a state
+   that satisfies the invariant: independent of the scoped store, which it leaves alone; the invariant is kept *)
+Theorem local_never_forces : forall t fl glob call G,
+  (forall x, G x = true -> exists v, globals_get glob x = Some v) ->
+  forall fuel le e env ls p,
+  eager_ok G env e = true -> locals_ok (l_store ls) env (l_locals ls) ->
+  (forall sc, leager t fl glob call fuel le e (with_scoped sc ls) p = omap_scoped sc (leager t fl glob call fuel le e ls p)) /\
+  (forall v ls' p', leager t fl glob call fuel le e ls p = Ok (v, ls', p') ->
+     sext (l_store ls) (l_store ls') /\ quiet ls ls' /\ l_locals ls' = l_locals ls /\ locals_ok (l_store ls') env (l_locals ls')).
+Proof.
+  intros t fl glob call G Hglob fuel le e env ls p He Hok.
+  destruct (leager_ok t fl glob call G Hglob fuel le e env (l_locals ls) He ls p (conj Hok eq_refl)) as [C R]. split; [exact C|].
+  intros v ls' p' E. destruct (R _ _ _ E) as (S1 & Q1 & H1 & H2). rewrite H2. auto.
+Qed.
+
+(* evaluate_lazy on ANY expression of a checked statement (its comprehension lists are eager_ok): the same, and the
+   lazy value returned is pure whenever the expression itself is eager_ok *)
+Theorem checked_expr_never_forces : forall t fl glob call G,
+  (forall x, G x = true -> exists v, globals_get glob x = Some v) ->
+  forall fuel le e env ls p,
+  expr_eok G env e = true -> locals_ok (l_store ls) env (l_locals ls) ->
+  (forall sc, leval t fl glob call fuel le e (with_scoped sc ls) p = omap_scoped sc (leval t fl glob call fuel le e ls p)) /\
+  (forall lv ls' p', leval t fl glob call fuel le e ls p = Ok (lv, ls', p') ->
+     sext (l_store ls) (l_store ls') /\ quiet ls ls' /\ l_locals ls' = l_locals ls /\ locals_ok (l_store ls') env (l_locals ls') /\
+     (eager_ok G env e = true -> pure_lv (l_store ls') lv)).
+Proof.
+  intros t fl glob call G Hglob fuel le e env ls p He Hok.
+  destruct (leval_ok t fl glob call G Hglob fuel le e env (l_locals ls) He ls p (conj Hok eq_refl)) as [C R]. split; [exact C|].
+  intros v ls' p' E. destruct (R _ _ _ E) as (S1 & Q1 & [H1 H2] & H3). rewrite H2. auto.
+Qed.
+
+(* THE INVARIANT: executing a statement whose eager positions are eager_ok (what the checker guarantees) keeps
+   "every variable flagged local is immutable and bound to a pure lazy value", for the static environment the checker
+   continues with; the store only grows and no scoped cell is forced *)
+Theorem local_invariant_preserved : forall (rx : Type) t fl cfg glob (regexes : list rx) find call G,
+  (forall x, G x = true -> exists v, globals_get glob x = Some v) -> shorthands_plain fl = true ->
+  forall fuel le s env ls p u ls' p',
+  stmt_eok G env s = true -> locals_ok (l_store ls) env (l_locals ls) ->
+  lexec_stmt t fl cfg glob regexes find call fuel le s ls p = Ok (u, ls', p') ->
+  locals_ok (l_store ls') (stmt_env G env s) (l_locals ls') /\ sext (l_store ls) (l_store ls') /\
+  (cells_unforced (l_scoped ls) -> cells_unforced (l_scoped ls')).
+Proof.
+  intros rx t fl cfg glob regexes find call G Hglob Hplain fuel le s env ls p u ls' p' Hs Hok E.
+  destruct (ho_lexec_stmt t fl cfg glob regexes find call G Hglob Hplain fuel le s env Hs ls p u ls' p' Hok E) as (S1 & U1 & H1). auto.
+Qed.
+
+(* whole execution phase of a CHECKED file (shorthand bodies without comprehensions: K4): when the evaluation
+   phase starts, no scoped-variable cell has been forced *)
+Theorem checked_exec_phase_forces_nothing : forall (rx : Type) q f fl t cfg g0 glob (regexes : list rx) find call fuel ms gr p u ls' p',
+  check_file q f = CkOk fl -> shorthands_plain fl = true ->
+  check_globals (f_globals fl) g0 = Ok glob ->
+  lexec_matches t fl cfg glob regexes find call fuel ms (linit gr) p = Ok (u, ls', p') ->
+  cells_unforced (l_scoped ls').
+Proof.
+  intros rx q f fl t cfg g0 glob regexes find call fuel ms gr p u ls' p' Hck Hplain Hg E.
+  eapply (exec_phase_unforced t fl cfg glob regexes find call (is_global fl)); [exact (is_global_glob _ _ _ Hg)|exact Hplain| |exact E].
+  exact (proj1 (checked_eager_positions_local _ _ _ Hck)).
+Qed.
+
+(* ---- Examples ---- *)
+(* a state: x (bit true) bound to an unforced thunk [1]; m (a `var`, bit false) bound to a thunk that reads a scoped
+   variable; the cell of that scoped variable is being forced *)
+Definition lz_tree : tree := {| t_src := []; t_nodes := [] |}.
+Definition lz_file : file := {| f_globals := []; f_inherited := []; f_shorthands := []; f_stanzas := [] |}.
+Definition lz_call : ident -> graph -> list value -> res (value * graph) := fun _ _ _ => Err EUndefinedFunction.
+Definition lz_ctx : stmt_ctx := {| sc_stmt := (0, 0); sc_stanza := (0, 0); sc_node := 0 |}.
+Definition lz_le : llenv := {| ll_match := []; ll_full := 0; ll_caps := []; ll_ctx := lz_ctx |}.
+Definition lz_env : lenv := [[([120], true); ([109], false)]].
+Definition lz_state (cells : list (ident * scoped_values)) : lstate :=
+  {| l_graph := []; l_locals := [[([120], (LVar 0, false)); ([109], (LVar 1, true))]];
+     l_store := [{| th_state := TUnforced (LList [LValue (VInt 1)]); th_dbg := lz_ctx |};
+                 {| th_state := TUnforced (LScoped (LValue (VSyn 0)) [121]); th_dbg := lz_ctx |}];
+     l_scoped := cells; l_edges := []; l_attrs := []; l_prints := []; l_params := []; l_prev := [] |}.
+Example lz_invariant : forall cells, locals_ok (l_store (lz_state cells)) lz_env (l_locals (lz_state cells)).
+Proof.
+  intros cells. constructor; [|constructor]. constructor; [|constructor; [|constructor]].
+  - split; [reflexivity|]. intros _. split; [reflexivity|]. apply pure_lv_var.
+    eapply PLoc_unforced; [reflexivity|reflexivity|reflexivity|intros l []|intros l []].
+  - split; [reflexivity|]. intros X. discriminate.
+Qed.
+(* the eager evaluation of [x, x] forces the thunk of x and does not look at the cell being forced *)
+Example lz_eager_runs : forall cells, exists ls',
+  leager lz_tree lz_file [[]] lz_call 10 lz_le (EList [EUnscoped [120] (0, 0); EUnscoped [120] (0, 0)]) (lz_state cells) (polls0 None)
+  = Ok (VList [VList [VInt 1]; VList [VInt 1]], ls', {| p_count := 5; p_trace := [6; 6; 6; 6; 6]; p_budget := None |})
+  /\ l_scoped ls' = cells /\ nth_error (l_store ls') 0 = Some {| th_state := TForced (VList [VInt 1]); th_dbg := lz_ctx |}.
+Proof. intros cells. eexists. split; [vm_compute; reflexivity|split; reflexivity]. Qed.
+Example lz_theorem_applies : forall cells sc,
+  leager lz_tree lz_file [[]] lz_call 10 lz_le (EUnscoped [120] (0, 0)) (with_scoped sc (lz_state cells)) (polls0 None) =
+  omap_scoped sc (leager lz_tree lz_file [[]] lz_call 10 lz_le (EUnscoped [120] (0, 0)) (lz_state cells) (polls0 None)).
+Proof.
+  intros cells sc.
+  exact (proj1 (local_never_forces lz_tree lz_file [[]] lz_call (fun _ => false) (fun x H => ltac:(discriminate H))
+                  10 lz_le (EUnscoped [120] (0, 0)) lz_env (lz_state cells) (polls0 None) eq_refl (lz_invariant cells)) sc).
+Qed.
+(* the variable with bit false is not eager_ok, and evaluating it eagerly DOES depend on the scoped store *)
+Example lz_nonlocal_depends :
+  eager_ok (fun _ => false) lz_env (EUnscoped [109] (0, 0)) = false /\
+  leager lz_tree lz_file [[]] lz_call 10 lz_le (EUnscoped [109] (0, 0)) (lz_state []) (polls0 None) <>
+  leager lz_tree lz_file [[]] lz_call 10 lz_le (EUnscoped [109] (0, 0)) (lz_state [([121], SVForcing)]) (polls0 None).
+Proof. split; [reflexivity|]. vm_compute. discriminate. Qed.
+
+(* ---- two states: independence of everything a local value cannot see ----
+   Vocabulary (Spec/AgreeLv.v)
+     states_agree env s1 s2     same graph, same parameter buffer, stores of the same length; every variable whose static
+                                bit is true is bound in both states to the SAME lazy value, whose reachable part of the two
+                                stores is the same (`agree`: both forced to the same value, or both unforced with the
+                                same scoped-free body over earlier, again agreeing locations; same debug info).
+                                NOTHING is assumed about the scoped stores, the variables with bit false (every `var`,
+                                every `let` of a non-local expression), the rest of the thunk stores, the deferred statements
+     outcomes_agree r1 r2       same value / error / panic / out of fuel, same polls, same final graph and parameters *)
+From TSG Require Import Spec.AgreeLv Proofs.LocalRel Proofs.LocalRelEval.
+
+Theorem local_independent_of_nonlocal_state : forall t fl glob call G,
+  (forall x, G x = true -> exists v, globals_get glob x = Some v) ->
+  forall fuel le e env s1 s2 p,
+  eager_ok G env e = true -> states_agree env s1 s2 ->
+  outcomes_agree (leager t fl glob call fuel le e s1 p) (leager t fl glob call fuel le e s2 p) /\
+  (forall v1 s1' p1 v2 s2' p2,
+     leager t fl glob call fuel le e s1 p = Ok (v1, s1', p1) -> leager t fl glob call fuel le e s2 p = Ok (v2, s2', p2) ->
+     states_agree env s1' s2').
+Proof. intros t fl glob call G Hglob fuel le e env s1 s2 p. apply leager_states_agree. exact Hglob. Qed.
+
+(* a state that satisfies the invariant agrees with itself (so with all its variants) *)
+Theorem invariant_gives_agreement : forall env s, locals_ok (l_store s) env (l_locals s) -> states_agree env s s.
+Proof. exact locals_ok_states_agree. Qed.
+
+(* Example: the state of lz_invariant and a variant in which the `var` m is bound to something else, the thunk behind
+   it holds another body, and the scoped cell is different: they agree, and the theorem gives the same result *)
+Definition lz_state' : lstate :=
+  {| l_graph := []; l_locals := [[([120], (LVar 0, false)); ([109], (LValue (VInt 7), true))]];
+     l_store := [{| th_state := TUnforced (LList [LValue (VInt 1)]); th_dbg := lz_ctx |};
+                 {| th_state := TForcing; th_dbg := lz_ctx |}];
+     l_scoped := [([121], SVForced [])]; l_edges := []; l_attrs := []; l_prints := []; l_params := []; l_prev := [] |}.
+Example lz_states_agree : states_agree lz_env (lz_state [([121], SVForcing)]) lz_state'.
+Proof.
+  split; [reflexivity|]. split; [reflexivity|]. split; [reflexivity|]. intros x Hx. cbn [lz_env lenv_get alist_get] in Hx.
+  destruct (str_eqb x [120]) eqn:E; [|destruct (str_eqb x [109]); discriminate].
+  exists (LVar 0). cbn [lz_state lz_state' l_locals varmap_get alist_get]. rewrite E. split; [reflexivity|]. split; [reflexivity|].
+  apply agree_lv_var. eapply AG_unforced; [reflexivity|reflexivity|reflexivity|reflexivity|reflexivity|reflexivity|intros l []|intros l []].
+Qed.
+Example lz_same_result :
+  outcomes_agree
+    (leager lz_tree lz_file [[]] lz_call 10 lz_le (EList [EUnscoped [120] (0, 0); EUnscoped [120] (0, 0)]) (lz_state [([121], SVForcing)]) (polls0 None))
+    (leager lz_tree lz_file [[]] lz_call 10 lz_le (EList [EUnscoped [120] (0, 0); EUnscoped [120] (0, 0)]) lz_state' (polls0 None)).
+Proof.
+  exact (proj1 (local_independent_of_nonlocal_state lz_tree lz_file [[]] lz_call (fun _ => false) (fun x H => ltac:(discriminate H))
+                  10 lz_le (EList [EUnscoped [120] (0, 0); EUnscoped [120] (0, 0)]) lz_env _ _ (polls0 None) eq_refl lz_states_agree)).
+Qed.
+
+(* K4 has a SEMANTIC consequence (known finding K4b; on the implementation: strict succeeds, `--lazy` fails with
+   "Cannot add scoped variable after being forced v" when another block defines v later): the hypothesis
+   `shorthands_plain` of checked_exec_phase_forces_nothing cannot be dropped.  The checker accepts
+       attribute sh = x => a = [y for y in x]
+       (..) @m { let @m.v = [1]  node n  attr (n) sh = @m.v }
+   (the comprehension list `x` in the shorthand body is never checked), and the execution phase of the lazy
+   interpreter forces the scoped variable `v`: after it, the cell is SVForced, so a definition of `v` by any later
+   block fails with VariableScopesAlreadyForced — the result depends on the order of the blocks. *)
+Definition k4_l : loc := (0, 0).
+Definition k4_tables : query_tables :=
+  {| qt_stanza_names := [[FULL_MATCH]]; qt_file_names := [FULL_MATCH]; qt_file_quants := [[QOne]]; qt_nullable := [] |}.
+Definition k4_cap : expr := ECapture FULL_MATCH QZero unresolved unresolved k4_l.
+Definition k4_file : file :=
+  {| f_globals := []; f_inherited := [];
+     f_shorthands := [{| sh_name := [115; 104]; sh_var := [120]; sh_vloc := k4_l;
+                         sh_attrs := [Attr [97] (EListComp (EUnscoped [121] k4_l) [121] k4_l (EUnscoped [120] k4_l) k4_l)]; sh_loc := k4_l |}];
+     f_stanzas := [{| st_stmts := [SLet (VarS k4_cap [118] k4_l) (EList [EInt 1]) k4_l;
+                                   SNode (VarU [110] k4_l) [110] k4_l;
+                                   SAttrNode (EUnscoped [110] k4_l) [Attr [115; 104] (EScoped k4_cap [118] k4_l)] k4_l];
+                      st_full_stanza_idx := 0; st_full_file_idx := unresolved; st_start := k4_l |}] |}.
+Example ex_shorthand_forces_cell : exists fl u ls p,
+  check_file k4_tables k4_file = CkOk fl /\ shorthands_plain fl = false /\
+  lexec_matches lz_tree fl config0 [[]] ([] : list unit) (fun _ _ => None) lz_call 20 [(0, [(0, [0])])] (linit []) (polls0 None) = Ok (u, ls, p) /\
+  l_scoped ls = [([118], SVForced [(0, LVar 0)])].
+Proof. do 4 eexists. split; [vm_compute; reflexivity|]. split; [reflexivity|]. split; [vm_compute; reflexivity|reflexivity]. Qed.
